@@ -134,6 +134,43 @@ def execute(sc):
 
     keep = []   # nothing under test is finalised during the execution
 
+    # ---- abstract-state projection (for conformance with Cache.tla): read the closure cells by name
+    cells = {}
+    try:
+        w = wrapped
+        for n, c in zip(w.__code__.co_freevars, w.__closure__ or ()):
+            cells[n] = c
+    except Exception:
+        cells = {}
+    have_proj = all(n in cells for n in ('_cache', 'events', 'event_making_lock'))
+
+    def proj():
+        if not have_proj or not sc.get('proj', True):
+            return None
+        try:
+            cache_map = cells['_cache'].cell_contents
+            events = cells['events'].cell_contents
+            lock = cells['event_making_lock'].cell_contents
+            vals = [v.inv for v in list(cache_map.values()) if isinstance(v, Val)]
+            mk = list(events.values())
+            return {'cache': vals[0] if vals else 0,
+                    'mloop': getattr(mk[0][0], 'vname', '?') if mk else 'none',
+                    'lock': bool(lock.locked()) if hasattr(lock, 'locked') else False}
+        except Exception:
+            return None
+
+    _orig_log = ctl.log
+
+    def log_with_proj(e, **kw):
+        d = _orig_log(e, **kw)
+        if e in ('CallStart', 'FuncStart', 'FuncEnd', 'CallEnd', 'Cancel', 'LoopStopped', 'LoopRunning',
+                 'LoopAbandoned'):
+            p = proj()
+            if p is not None:
+                d['st'] = p
+        return d
+    ctl.log = log_with_proj
+
     def loop_thread(ls):
         name = ls['name']
         if ls.get('start', 0) > 0:
